@@ -323,7 +323,7 @@ def run(ctx):
     from .c08 import _take as _take_o
     r_oo = Rule("C05", "C05.R7", "a generated companion question carries none of the select row's logic cells", floor=6,
                 necessary="logic cells duplicated onto the generated <name>_other question give it a bind the author never wrote")
-    _take_o(r_oo, _c09o.run(ctx), "C09.R6", lambda c: c.startswith("or_other["))
+    _take_o(r_oo, ctx.other(_c09o), "C09.R6", lambda c: c.startswith("or_other["))
     rules.append(r_oo)
     return rules
 
